@@ -421,13 +421,16 @@ def make_replay(h, failing_descs, scratch, pool, logdir, hdir=None):
             if d:
                 cmd += ['--cbmc-args', '--unwindset', ','.join('%s:%d' % kv for kv in sorted(d.items()))]
         lp = os.path.join(logdir, h['name'] + '.playback-gen.log')
-        st, _, _ = run_limited(cmd, REPO, env_for(hdir), lp, h.get('timeout', 900) * 2, MEM_CLASS[h.get('mem', 'S')] * 1.5)
+        st, _, _ = run_limited(cmd, REPO, env_for(hdir), lp, h.get('timeout', 900) * 2, max(8, MEM_CLASS[h.get('mem', 'S')] * 2))
         text = open(lp, errors='replace').read()
     finally:
         pool.put(tdir)
     # Kani prints one unit test per failed check and per satisfied cover point: keep the failed checks only
     blocks = re.findall(r'```\n(.*?)```', text, re.S)
-    tests = [b for b in blocks if '#[test]' in b and not re.search(r'/// Check for `cover`', b)]
+    # (Kani prints one test per distinct value vector: when the SAT model of a failed check also satisfies a cover
+    # point, the only test for it is headed "Check for `cover`", so those come second instead of being dropped)
+    tests = [b for b in blocks if '#[test]' in b and not re.search(r'/// Check for `cover`', b)] + \
+            [b for b in blocks if '#[test]' in b and re.search(r'/// Check for `cover`', b)]
     if not tests:
         return None, None, 'no concrete playback test produced for a failed check (%s)' % st
     # de-duplicate identical value vectors, cap the number of tests
@@ -437,7 +440,7 @@ def make_replay(h, failing_descs, scratch, pool, logdir, hdir=None):
         if key not in seen:
             seen.add(key)
             uniq.append(b)
-    test_src = '\n'.join(uniq[:6])
+    test_src = '\n'.join(uniq[:8])
     return run_replay_source(h['file'], h['name'], test_src, failing_descs, scratch, logdir, hdir=hdir)
 
 
